@@ -1,12 +1,16 @@
 (* Mgr — executable model of litep2p's TransportManager bookkeeping
-   (src/transport/manager/{mod,peer_state,limits}.rs), shared by C05 and C06.
+   (src/transport/manager/{mod,peer_state,limits,handle}.rs), shared by C05 and C06.
    Definitions only. One model step = one event handled to completion by the manager's loop
-   (`TransportManager::next`, `dial`, `dial_address`).
+   (`TransportManager::next`, `dial`, `dial_address`), or one call on the user-facing
+   `TransportManagerHandle` followed by the manager executing the command it queued.
 
-   Abstractions: peers and connection ids are numbers; one installed transport (TCP — the build
-   configuration of the harness has neither `quic` nor `websocket`); the address book is reduced to
-   "does the peer have at least one stored address" (scores/eviction are C10); multiaddresses are
-   reduced to the peer they name. *)
+   Abstractions: peers and connection ids are numbers; transports are numbers (0 = TCP,
+   1 = WebSocket; QUIC is compiled out of the harness build) and the configuration says which of
+   them are installed; the address book of a peer is the set of multiaddresses stored for it in the
+   abstract grammar of C10 (scores / eviction are C10's business: which of the stored addresses
+   `AddressStore::addresses(limit)` hands out when the free outbound capacity is smaller than
+   the store is an input of the dial step, constrained by `choice_ok`); the addresses reported by
+   a transport are the canonical address of the peer for that transport (`canon`). *)
 From Coq Require Import List NArith Bool.
 From V.C10 Require Model.
 From V.Mgr Require Import DialShape.
@@ -15,31 +19,38 @@ Open Scope N_scope.
 
 Definition conn := N.
 Definition peer := N.
+Definition tr := N.
 
 Definition LOCAL : peer := 0.
+Definition TCP : tr := 0.
+Definition WS : tr := 1.
 
 Inductive sec := SecEst (c : conn) | SecDial (c : conn).
 
 (* PeerState *)
 Inductive pstate :=
 | Connected (c : conn) (s : option sec)
-| Opening (c : conn)
+| Opening (c : conn) (ts : list tr)        (* PeerState::Opening { connection_id, transports, .. } *)
 | Dialing (c : conn)
 | Disconnected (d : option conn).
 
-Record limits := mkLimits { max_in : option N; max_out : option N }.
+(* the configuration of the manager: connection limits and the installed transports *)
+Record limits := mkLimits { max_in : option N; max_out : option N; inst : list tr }.
+
+Definition maddr := V.C10.Model.maddr.
 
 Record mgr := mkMgr {
   peers : list (peer * pstate);          (* absent = PeerContext::default() = Disconnected None *)
-  known : list peer;                     (* peers with a non-empty address store *)
+  known : list (peer * list maddr);      (* PeerContext::addresses: the stored addresses (no scores) *)
   pending : list (conn * peer);          (* pending_connections *)
   ins : list conn;                       (* ConnectionLimits::incoming_connections *)
   outs : list conn;                      (* ConnectionLimits::outgoing_connections *)
   accepting : list (conn * (peer * bool)); (* pending_accept futures in creation order: (conn, (peer, is_listener)) *)
+  oerrs : list (conn * N);               (* opening_errors: number of errors kept per connection id *)
   next_conn : N
 }.
 
-Definition init : mgr := mkMgr [] [] [] [] [] [] 0.
+Definition init : mgr := mkMgr [] [] [] [] [] [] [] 0.
 
 (* ---- finite maps / sets as lists ---- *)
 Fixpoint lookup {A} (k : N) (l : list (N * A)) : option A :=
@@ -63,22 +74,55 @@ Definition mem (x : N) (l : list N) : bool := existsb (N.eqb x) l.
 Definition set_add (x : N) (l : list N) : list N := if mem x l then l else x :: l.
 Definition set_remove (x : N) (l : list N) : list N := filter (fun y => negb (y =? x)) l.
 Definition card (l : list N) : N := N.of_nat (length l).
+Definition is_nil {A} (l : list A) : bool := match l with [] => true | _ => false end.
+Definition subset (a b : list N) : bool := forallb (fun x => mem x b) a.
+Fixpoint nodupb (l : list N) : bool :=
+  match l with [] => true | x :: t => negb (mem x t) && nodupb t end.
+
+Definition installed (L : limits) (t : tr) : bool := (t <? 2) && mem t (inst L).
 
 Definition state_of (m : mgr) (p : peer) : pstate :=
   match lookup p (peers m) with Some s => s | None => Disconnected None end.
 
 Definition set_state (m : mgr) (p : peer) (s : pstate) : mgr :=
-  mkMgr (insert_key p s (peers m)) (known m) (pending m) (ins m) (outs m) (accepting m) (next_conn m).
-Definition set_known (m : mgr) (p : peer) : mgr :=
-  mkMgr (peers m) (set_add p (known m)) (pending m) (ins m) (outs m) (accepting m) (next_conn m).
+  mkMgr (insert_key p s (peers m)) (known m) (pending m) (ins m) (outs m) (accepting m) (oerrs m) (next_conn m).
+Definition set_known (m : mgr) (k : list (peer * list maddr)) : mgr :=
+  mkMgr (peers m) k (pending m) (ins m) (outs m) (accepting m) (oerrs m) (next_conn m).
 Definition set_pending (m : mgr) (l : list (conn * peer)) : mgr :=
-  mkMgr (peers m) (known m) l (ins m) (outs m) (accepting m) (next_conn m).
+  mkMgr (peers m) (known m) l (ins m) (outs m) (accepting m) (oerrs m) (next_conn m).
 Definition set_limits (m : mgr) (i o : list conn) : mgr :=
-  mkMgr (peers m) (known m) (pending m) i o (accepting m) (next_conn m).
+  mkMgr (peers m) (known m) (pending m) i o (accepting m) (oerrs m) (next_conn m).
 Definition set_accepting (m : mgr) (l : list (conn * (peer * bool))) : mgr :=
-  mkMgr (peers m) (known m) (pending m) (ins m) (outs m) l (next_conn m).
+  mkMgr (peers m) (known m) (pending m) (ins m) (outs m) l (oerrs m) (next_conn m).
+Definition set_oerrs (m : mgr) (l : list (conn * N)) : mgr :=
+  mkMgr (peers m) (known m) (pending m) (ins m) (outs m) (accepting m) l (next_conn m).
 Definition bump_conn (m : mgr) : mgr :=
-  mkMgr (peers m) (known m) (pending m) (ins m) (outs m) (accepting m) (next_conn m + 1).
+  mkMgr (peers m) (known m) (pending m) (ins m) (outs m) (accepting m) (oerrs m) (next_conn m + 1).
+
+(* ---- the address book ---- *)
+Definition addrs_of (m : mgr) (p : peer) : list maddr :=
+  match lookup p (known m) with Some l => l | None => [] end.
+
+(* AddressStore::insert as far as membership goes (the store is below its capacity) *)
+Definition add_addr (m : mgr) (p : peer) (a : maddr) : mgr :=
+  if existsb (V.C10.Model.maddr_eqb a) (addrs_of m p) then m
+  else set_known m (insert_key p (addrs_of m p ++ [a]) (known m)).
+
+(* TransportManager::supported_transports_addresses (feature websocket on, quic off): the
+   transport an address is handed to by dial(peer) *)
+Definition is_wsc (c : V.C10.Model.comp) : bool :=
+  match c with V.C10.Model.Ws | V.C10.Model.Wss => true | _ => false end.
+Definition kind_of (a : maddr) : tr := if existsb is_wsc a then WS else TCP.
+
+Definition kinds_of (l : list maddr) : list tr :=
+  (if existsb (fun a => kind_of a =? TCP) l then [TCP] else []) ++
+  (if existsb (fun a => kind_of a =? WS) l then [WS] else []).
+
+(* the address of peer p the harness' scripted transport t reports / the harness adds *)
+Definition canon (p : peer) (t : tr) : maddr :=
+  if t =? TCP
+  then [V.C10.Model.Ip4 V.C10.Model.Priv (100 + p); V.C10.Model.Tcp (1000 + p); V.C10.Model.P2p p]
+  else [V.C10.Model.Ip4 V.C10.Model.Priv (100 + p); V.C10.Model.Tcp (1000 + p); V.C10.Model.Ws; V.C10.Model.P2p p].
 
 (* ---- PeerState transitions (peer_state.rs) ---- *)
 
@@ -87,7 +131,7 @@ Inductive dial_gate := GateConnected | GateInProgress | GateOk.
 Definition can_dial (s : pstate) : dial_gate :=
   match s with
   | Connected _ _ => GateConnected
-  | Dialing _ | Opening _ | Disconnected (Some _) => GateInProgress
+  | Dialing _ | Opening _ _ | Disconnected (Some _) => GateInProgress
   | Disconnected None => GateOk
   end.
 
@@ -109,7 +153,7 @@ Definition st_on_established (s : pstate) (c : conn) : pstate * bool :=
   | Dialing d | Disconnected (Some d) =>
       if d =? c then (Connected c None, true) else (Connected c (Some (SecDial d)), true)
   | Disconnected None => (Connected c None, true)
-  | Opening _ => (Connected c None, true)
+  | Opening _ _ => (Connected c None, true)
   end.
 
 (* returns (new state, report ConnectionClosed) *)
@@ -130,36 +174,53 @@ Definition st_on_closed (s : pstate) (c : conn) : pstate * bool :=
   | _ => (s, false)
   end.
 
+(* PeerState::on_open_failure: the set without the failed transport *)
+Definition remove_tr (t : tr) (ts : list tr) : list tr := filter (fun y => negb (y =? t)) ts.
+
 (* ---- limits.rs ---- *)
 Definition limit_reached (mx : option N) (l : list conn) : bool :=
   match mx with Some m => m <=? card l | None => false end.
 Definition limit_insert (mx : option N) (c : conn) (l : list conn) : list conn :=
   match mx with Some _ => set_add c l | None => l end.
+(* ConnectionLimits::on_dial_address: the free outbound capacity (None = unlimited) *)
+Definition free_cap (L : limits) (m : mgr) : option N :=
+  match max_out L with Some mx => Some (mx - card (outs m)) | None => None end.
 
 (* ---- events and outputs ---- *)
 
 Inductive ev :=
-| CmdDialPeer (p : peer) (open_fails : bool)
-| CmdDialAddr (p : peer) (dial_fails : bool)      (* a well-formed /ip4|dns/tcp/p2p address naming p *)
-| CmdAddAddr (p : peer)                           (* add_known_address with a usable address *)
-| TrDialFailure (c : conn) (p : peer)             (* the failed address names p *)
-| TrOpened (c : conn) (negotiate_fails : bool)
-| TrOpenFailure (c : conn) (pa : peer)            (* the failed address(es) name pa *)
-| TrEstablished (p : peer) (c : conn) (listener : bool) (accept_fails : bool)
-| TrPendingInbound (c : conn)
+| CmdDialPeer (p : peer) (ts : list tr) (fl : list tr)
+      (* TransportManager::dial(p). ts: the transports spanned by the addresses the store handed
+         out, in the order `open` is called on them (the implementation's choice, see choice_ok);
+         fl: the transports whose `open` call fails *)
+| CmdDialAddr (p : peer) (t : tr) (dial_fails : bool)   (* dial_address(canon p t) *)
+| CmdAddAddr (p : peer) (t : tr)                  (* add_known_address(p, [canon p t]) *)
+| TrDialFailure (c : conn) (t : tr) (p : peer)    (* from transport t; the failed address is canon p t *)
+| TrOpened (c : conn) (t : tr) (negotiate_fails : bool)
+| TrOpenFailure (c : conn) (t : tr) (pa : peer)   (* from transport t; the failed address is canon pa t *)
+| TrEstablished (p : peer) (c : conn) (t : tr) (listener : bool) (accept_fails : bool)
+| TrPendingInbound (c : conn) (t : tr)
 | AcceptDone (c : conn) (ok : bool)               (* the accept future of c resolves *)
 | Closed (p : peer) (c : conn)                    (* TransportManagerEvent::ConnectionClosed *)
 | AllocConn                                       (* a transport draws an id from the shared counter
                                                      (next_connection_id) for an inbound socket *)
-| CmdDialShape (a : V.C10.Model.maddr).           (* dial_address with an arbitrary multiaddress *)
+| CmdDialShape (a : maddr)                        (* dial_address with an arbitrary multiaddress *)
+| HDialPeer (p : peer) (ts : list tr) (fl : list tr) (clog : bool)
+      (* TransportManagerHandle::dial(p), then the manager executes the queued command;
+         clog: the command channel is full *)
+| HDialAddr (a : maddr) (clog : bool).            (* TransportManagerHandle::dial_address(a), likewise *)
 
 Inductive out :=
-| CallOpen (c : conn) | CallDial (c : conn) | CallNegotiate (c : conn) | CallCancel (c : conn)
-| CallAccept (c : conn) | CallReject (c : conn) | CallAcceptPending (c : conn) | CallRejectPending (c : conn)
+| CallOpen (c : conn) (t : tr) | CallDial (c : conn) (t : tr) | CallNegotiate (c : conn) (t : tr)
+| CallCancel (c : conn) (t : tr)
+| CallAccept (c : conn) (t : tr) | CallReject (c : conn) (t : tr)
+| CallAcceptPending (c : conn) (t : tr) | CallRejectPending (c : conn) (t : tr)
 | EvEstablished (p : peer) (c : conn) | EvClosed (p : peer) (c : conn)
-| EvDialFailure (c : conn) (p : peer) | EvOpenFailure (c : conn)
+| EvDialFailure (c : conn) (p : peer)
+| EvOpenFailure (c : conn) (n : N)      (* n: number of errors reported (all transports) *)
 | ProtoDialFailure (p : peer)
 | Ret (code : N)
+| Logged (code : N)     (* result of a command executed by the manager loop: only written to the log *)
 | Stuck (site : N).     (* a debug_assert!(false) / expect / panic site *)
 
 Definition RET_OK : N := 0.
@@ -168,6 +229,7 @@ Definition RET_SELF : N := 2.
 Definition RET_CONNECTED : N := 3.
 Definition RET_NO_ADDRESS : N := 4.
 Definition RET_TRANSPORT : N := 5.
+Definition RET_CLOGGED : N := 8.    (* ImmediateDialError::ChannelClogged *)
 Definition RET_ALLOC : N := 100.    (* RET_ALLOC + c: the id drawn by AllocConn *)
 
 (* TransportManager::on_connection_closed: limits release + state transition *)
@@ -176,8 +238,33 @@ Definition do_closed (m : mgr) (p : peer) (c : conn) : mgr * bool :=
   let '(s', rep) := st_on_closed (state_of m1 p) c in
   (set_state m1 p s', rep).
 
+(* What `AddressStore::addresses(available_capacity)` may hand out, seen through the transports
+   its result spans: a non-empty duplicate-free set of kinds the peer has an address for; no more
+   transports than addresses taken; and every kind when the capacity covers the whole store. *)
+Definition choice_ok (L : limits) (m : mgr) (p : peer) (ts : list tr) : bool :=
+  let l := addrs_of m p in
+  let ks := kinds_of l in
+  negb (is_nil ts) && nodupb ts && subset ts ks &&
+  match free_cap L m with
+  | None => subset ks ts
+  | Some k => (N.of_nat (length ts) <=? k) &&
+              (if N.of_nat (length l) <=? k then subset ks ts else true)
+  end.
+
+(* the loop `for (transport, addresses) in transports { ... open(connection_id, addresses)?; }`:
+   the calls made and whether all of them succeeded; a transport that is not installed is skipped *)
+Fixpoint open_calls (L : limits) (c : conn) (ts fl : list tr) : list out * bool :=
+  match ts with
+  | [] => ([], true)
+  | t :: r =>
+      if installed L t then
+        if mem t fl then ([CallOpen c t], false)
+        else let '(os, ok) := open_calls L c r fl in (CallOpen c t :: os, ok)
+      else open_calls L c r fl
+  end.
+
 (* TransportManager::dial *)
-Definition do_dial_peer (L : limits) (m : mgr) (p : peer) (open_fails : bool) : mgr * list out :=
+Definition do_dial_peer (L : limits) (m : mgr) (p : peer) (ts fl : list tr) : mgr * list out :=
   if limit_reached (max_out L) (outs m) then (m, [Ret RET_LIMIT])
   else if p =? LOCAL then (m, [Ret RET_SELF])
   else
@@ -185,20 +272,23 @@ Definition do_dial_peer (L : limits) (m : mgr) (p : peer) (open_fails : bool) : 
     | GateConnected => (m, [Ret RET_CONNECTED])
     | GateInProgress => (m, [Ret RET_OK])
     | GateOk =>
-        if negb (mem p (known m)) then (m, [Ret RET_NO_ADDRESS])
+        if is_nil (addrs_of m p) then (m, [Ret RET_NO_ADDRESS])
         else
           let c := next_conn m in
-          let m1 := set_state (bump_conn m) p (Opening c) in
-          if open_fails then (m1, [CallOpen c; Ret RET_TRANSPORT])
-          else (set_pending m1 (insert_key c p (pending m1)), [CallOpen c; Ret RET_OK])
+          let m1 := set_state (bump_conn m) p (Opening c ts) in
+          let '(calls, ok) := open_calls L c ts fl in
+          if ok then (set_pending m1 (insert_key c p (pending m1)), calls ++ [Ret RET_OK])
+          else (m1, calls ++ [Ret RET_TRANSPORT])
     end.
 
-(* TransportManager::dial_address for a well-formed address of p *)
-Definition do_dial_addr (L : limits) (m : mgr) (p : peer) (dial_fails : bool) : mgr * list out :=
-  if limit_reached (max_out L) (outs m) then (m, [Ret RET_LIMIT])
+(* TransportManager::dial_address for a well-formed address a of peer p routed to transport t
+   (after the limit, shape and listen-address checks) *)
+Definition do_dial_addr (L : limits) (m : mgr) (p : peer) (t : tr) (a : maddr) (dial_fails : bool)
+  : mgr * list out :=
+  if negb (installed L t) then (m, [Ret RET_NOT_SUPPORTED])   (* refused before anything is recorded (`fix:` commit) *)
   else
     let c := next_conn m in
-    let m0 := set_known (bump_conn m) p in
+    let m0 := add_addr (bump_conn m) p a in
     match can_dial (state_of m0 p) with
     | GateConnected => (m0, [Ret RET_CONNECTED])
     | GateInProgress => (m0, [Ret RET_OK])
@@ -207,28 +297,27 @@ Definition do_dial_addr (L : limits) (m : mgr) (p : peer) (dial_fails : bool) : 
         if dial_fails then
           (* the dial could not be started: the dial record is cleared again (`fix:` commit;
              before it the peer stayed in Dialing forever) *)
-          (set_state m1 p (st_on_dial_failure (Dialing c) c), [CallDial c; Ret RET_TRANSPORT])
-        else (set_pending m1 (insert_key c p (pending m1)), [CallDial c; Ret RET_OK])
+          (set_state m1 p (st_on_dial_failure (Dialing c) c), [CallDial c t; Ret RET_TRANSPORT])
+        else (set_pending m1 (insert_key c p (pending m1)), [CallDial c t; Ret RET_OK])
     end.
 
 (* the registered listen address of the harness node: /ip4/<private 1>/tcp/7000, stored with and
    without the local peer id *)
-Definition LISTEN0 : V.C10.Model.maddr := [V.C10.Model.Ip4 V.C10.Model.Priv 1; V.C10.Model.Tcp 7000].
-Definition LISTEN : list V.C10.Model.maddr := [LISTEN0; LISTEN0 ++ [V.C10.Model.P2p LOCAL]].
+Definition LISTEN0 : maddr := [V.C10.Model.Ip4 V.C10.Model.Priv 1; V.C10.Model.Tcp 7000].
+Definition LISTEN : list maddr := [LISTEN0; LISTEN0 ++ [V.C10.Model.P2p LOCAL]].
 
-Definition do_dial_shape (L : limits) (m : mgr) (a : V.C10.Model.maddr) : mgr * list out :=
+Definition do_dial_shape (L : limits) (m : mgr) (a : maddr) (dial_fails : bool) : mgr * list out :=
   if limit_reached (max_out L) (outs m) then (m, [Ret RET_LIMIT])
   else
     match dial_shape LISTEN a with
     | SvRefuse code => (m, [Ret code])
-    | SvTcp p => do_dial_addr L m p false
-    | SvWs _ => (m, [Ret RET_NOT_SUPPORTED])   (* the WebSocket transport is not installed in the harness:
-                                                  refused before anything is recorded (`fix:` commit) *)
+    | SvTcp p => do_dial_addr L m p TCP a dial_fails
+    | SvWs p => do_dial_addr L m p WS a dial_fails
     end.
 
-(* TransportEvent::DialFailure *)
-Definition do_dial_failure (m : mgr) (c : conn) (pa : peer) : mgr * list out :=
-  let m0 := set_known m pa in
+(* TransportEvent::DialFailure from transport t *)
+Definition do_dial_failure (m : mgr) (c : conn) (t : tr) (pa : peer) : mgr * list out :=
+  let m0 := add_addr m pa (canon pa t) in
   match lookup c (pending m0) with
   | None => (m0, [])
   | Some p =>
@@ -237,71 +326,95 @@ Definition do_dial_failure (m : mgr) (c : conn) (pa : peer) : mgr * list out :=
       (m2, [ProtoDialFailure pa; EvDialFailure c pa])
   end.
 
+(* accept(c) on the transport that delivered the connection; a failing accept rolls the state back *)
+Definition est_finish (m4 : mgr) (p : peer) (c : conn) (t : tr) (listener accept_fails : bool)
+           (cancels : list out) : mgr * list out :=
+  if accept_fails then
+    let '(m5, _) := do_closed m4 p c in (m5, cancels ++ [CallAccept c t])
+  else
+    (set_accepting m4 (accepting m4 ++ [(c, (p, listener))]), cancels ++ [CallAccept c t]).
+
 (* TransportEvent::ConnectionEstablished, after the pending entry was consumed *)
-Definition do_established_checked (L : limits) (m1 : mgr) (p : peer) (c : conn) (listener accept_fails : bool)
-  : mgr * list out :=
+Definition do_established_checked (L : limits) (m1 : mgr) (p : peer) (c : conn) (t : tr)
+           (listener accept_fails : bool) : mgr * list out :=
   if limit_reached (if listener then max_in L else max_out L) (if listener then ins m1 else outs m1)
   then
     (* the dial attempt (if c was one) has concluded: the dial record is cleared
        (repaired by the `fix:` commit for F-C05a; before it the state was left untouched) *)
     (if existsb (fun kp : N * pstate => fst kp =? p) (peers m1)
-     then set_state m1 p (st_on_dial_failure (state_of m1 p) c) else m1, [CallReject c])
+     then set_state m1 p (st_on_dial_failure (state_of m1 p) c) else m1, [CallReject c t])
   else
     let prev := state_of m1 p in
     let '(s', accepted) := st_on_established prev c in
-    if negb accepted then (m1, [CallReject c])
+    if negb accepted then (m1, [CallReject c t])
     else
       let m2 := set_state m1 p s' in
       let m3 := if listener then set_limits m2 (limit_insert (max_in L) c (ins m2)) (outs m2)
                 else set_limits m2 (ins m2) (limit_insert (max_out L) c (outs m2)) in
-      let '(m4, cancels) :=
-        match prev with
-        | Opening d => (set_pending m3 (remove_key d (pending m3)), [CallCancel d])
-        | _ => (m3, [])
-        end in
-      if accept_fails then
-        let '(m5, _) := do_closed m4 p c in (m5, cancels ++ [CallAccept c])
-      else
-        (set_accepting m4 (accepting m4 ++ [(c, (p, listener))]), cancels ++ [CallAccept c]).
+      match prev with
+      | Opening d ts =>
+          (* an established connection supersedes the opening attempt: cancel on every transport
+             of the set, drop the pending entry *)
+          if negb (forallb (installed L) ts)
+          then (m1, [Stuck 4])    (* cancel on a transport that does not exist: expect("transport to exist")
+                                     panics out of the manager loop; the run ends, the state after it is not meaningful *)
+          else est_finish (set_pending m3 (remove_key d (pending m3))) p c t listener accept_fails
+                          (map (CallCancel d) ts)
+      | _ => est_finish m3 p c t listener accept_fails []
+      end.
 
-Definition do_established (L : limits) (m : mgr) (p : peer) (c : conn) (listener accept_fails : bool)
+Definition do_established (L : limits) (m : mgr) (p : peer) (c : conn) (t : tr) (listener accept_fails : bool)
   : mgr * list out :=
-  let m0 := if listener then m else set_known m p in
+  let me := set_oerrs m (remove_key c (oerrs m)) in
+  let m0 := if listener then me else add_addr me p (canon p t) in
   let m1 := set_pending m0 (remove_key c (pending m0)) in
   match lookup c (pending m0) with
   | Some dp =>
-      if dp =? p then do_established_checked L m1 p c listener accept_fails
+      if dp =? p then do_established_checked L m1 p c t listener accept_fails
       else (m1, [Stuck 1])   (* debug_assert!(false): a debug build panics here; a release build would reject(c) *)
-  | None => do_established_checked L m1 p c listener accept_fails
+  | None => do_established_checked L m1 p c t listener accept_fails
   end.
 
-(* TransportEvent::ConnectionOpened *)
-Definition do_opened (m : mgr) (c : conn) (negotiate_fails : bool) : mgr * list out :=
+(* TransportEvent::ConnectionOpened from transport t *)
+Definition do_opened (L : limits) (m0 : mgr) (c : conn) (t : tr) (negotiate_fails : bool) : mgr * list out :=
+  let m := set_oerrs m0 (remove_key c (oerrs m0)) in
   match lookup c (pending m) with
   | None => (m, [Stuck 2])
   | Some p =>
-      let m1 := set_known (set_pending m (remove_key c (pending m))) p in
+      let m1 := add_addr (set_pending m (remove_key c (pending m))) p (canon p t) in
       match state_of m1 p with
-      | Opening d =>
+      | Opening d ts =>
           let m2 := set_state m1 p (Dialing c) in
-          if negotiate_fails then
-            (set_state m2 p (Disconnected None), [CallCancel d; CallNegotiate d])
+          if negb (forallb (installed L) ts) then (m2, [Stuck 3])  (* expect("transport to exist") *)
+          else if negotiate_fails then
+            (set_state m2 p (Disconnected None), map (CallCancel d) ts ++ [CallNegotiate d t])
           else
-            (set_pending m2 (insert_key d p (pending m2)), [CallCancel d; CallNegotiate d])
+            (set_pending m2 (insert_key d p (pending m2)), map (CallCancel d) ts ++ [CallNegotiate d t])
       | _ => (m1, [])
       end
   end.
 
-(* TransportEvent::OpenFailure (single transport: it is always the last one) *)
-Definition do_open_failure (m0 : mgr) (c : conn) (pa : peer) : mgr * list out :=
-  let m := set_known m0 pa in
+Definition errs_of (m : mgr) (c : conn) : N := match lookup c (oerrs m) with Some n => n | None => 0 end.
+
+(* TransportEvent::OpenFailure from transport t (one failed address): only the failure of the
+   last transport of the set is reported, with the errors kept for the earlier ones *)
+Definition do_open_failure (m0 : mgr) (c : conn) (t : tr) (pa : peer) : mgr * list out :=
+  let m := add_addr m0 pa (canon pa t) in
   match lookup c (pending m) with
   | None => (m, [])
   | Some p =>
       match state_of m p with
-      | Opening _ =>
-          let m1 := set_state m p (Disconnected None) in
-          (set_pending m1 (remove_key c (pending m1)), [ProtoDialFailure p; EvOpenFailure c])
+      | Opening d ts =>
+          if mem t ts then
+            match remove_tr t ts with
+            | [] =>
+                let m1 := set_state m p (Disconnected None) in
+                (set_oerrs (set_pending m1 (remove_key c (pending m1))) (remove_key c (oerrs m1)),
+                 [ProtoDialFailure p; EvOpenFailure c (errs_of m c + 1)])
+            | ts' =>
+                (set_oerrs (set_state m p (Opening d ts')) (insert_key c (errs_of m c + 1) (oerrs m)), [])
+            end
+          else (m, [])
       | _ => (m, [])
       end
   end.
@@ -315,22 +428,61 @@ Definition do_accept_done (m : mgr) (c : conn) (ok : bool) : mgr * list out :=
       else let '(m2, _) := do_closed m1 p c in (m2, [])
   end.
 
+(* ---- the user-facing handle (handle.rs) ---- *)
+
+Inductive hres := HErr (code : N) | HInProgress | HQueue.
+
+(* the synchronous gate of TransportManagerHandle::dial *)
+Definition handle_gate (m : mgr) (p : peer) : hres :=
+  if p =? LOCAL then HErr RET_SELF
+  else
+    match can_dial (state_of m p) with
+    | GateConnected => HErr RET_CONNECTED
+    | GateInProgress => HInProgress
+    | GateOk => if is_nil (addrs_of m p) then HErr RET_NO_ADDRESS else HQueue
+    end.
+
+(* the result of a command executed by the manager loop is only logged *)
+Definition demote (o : out) : out := match o with Ret r => Logged r | _ => o end.
+
+Definition do_hdial_peer (L : limits) (m : mgr) (p : peer) (ts fl : list tr) (clog : bool) : mgr * list out :=
+  match handle_gate m p with
+  | HErr code => (m, [Ret code])
+  | HInProgress => (m, [Ret RET_OK])
+  | HQueue =>
+      if clog then (m, [Ret RET_CLOGGED])
+      else let '(m1, os) := do_dial_peer L m p ts fl in (m1, Ret RET_OK :: map demote os)
+  end.
+
+Definition is_p2p (c : V.C10.Model.comp) : bool := match c with V.C10.Model.P2p _ => true | _ => false end.
+
+Definition do_hdial_addr (L : limits) (m : mgr) (a : maddr) (clog : bool) : mgr * list out :=
+  if negb (existsb is_p2p a) then (m, [Ret RET_PEER_ID_MISSING])
+  else if clog then (m, [Ret RET_CLOGGED])
+  else let '(m1, os) := do_dial_shape L m a false in (m1, Ret RET_OK :: map demote os).
+
 Definition step (L : limits) (m : mgr) (e : ev) : mgr * list out :=
   match e with
-  | CmdDialPeer p f => do_dial_peer L m p f
-  | CmdDialAddr p f => do_dial_addr L m p f
-  | CmdAddAddr p => (set_known m p, [])
-  | TrDialFailure c pa => do_dial_failure m c pa
-  | TrOpened c f => do_opened m c f
-  | TrOpenFailure c pa => do_open_failure m c pa
-  | TrEstablished p c l f => do_established L m p c l f
-  | TrPendingInbound c =>
-      if limit_reached (max_in L) (ins m) then (m, [CallRejectPending c]) else (m, [CallAcceptPending c])
+  | CmdDialPeer p ts fl => do_dial_peer L m p ts fl
+  | CmdDialAddr p t f => do_dial_shape L m (canon p t) f
+  | CmdAddAddr p t =>
+      (* add_known_address keeps an address only if its transport is installed (supported_transport) *)
+      (if installed L (kind_of (canon p t)) then add_addr m p (canon p t) else m, [])
+  | TrDialFailure c t pa => if installed L t then do_dial_failure m c t pa else (m, [])
+  | TrOpened c t f => if installed L t then do_opened L m c t f else (m, [])
+  | TrOpenFailure c t pa => if installed L t then do_open_failure m c t pa else (m, [])
+  | TrEstablished p c t l f => if installed L t then do_established L m p c t l f else (m, [])
+  | TrPendingInbound c t =>
+      if installed L t then
+        if limit_reached (max_in L) (ins m) then (m, [CallRejectPending c t]) else (m, [CallAcceptPending c t])
+      else (m, [])
   | AcceptDone c ok => do_accept_done m c ok
   | Closed p c =>
       let '(m1, rep) := do_closed m p c in (m1, if rep then [EvClosed p c] else [])
   | AllocConn => (bump_conn m, [Ret (RET_ALLOC + next_conn m)])
-  | CmdDialShape a => do_dial_shape L m a
+  | CmdDialShape a => do_dial_shape L m a false
+  | HDialPeer p ts fl clog => do_hdial_peer L m p ts fl clog
+  | HDialAddr a clog => do_hdial_addr L m a clog
   end.
 
 Fixpoint run (L : limits) (m : mgr) (es : list ev) : mgr * list (list out) :=
